@@ -292,6 +292,17 @@ pub fn main(mode: Mode) -> i32 {
             cross_process(&mut ctx);
             let n = ctx.n(60_000, 3_000_000);
             ctx.run_search(&p, n, 120, 600);
+            // program level: labels of emitted assembly (needs the built tools)
+            let tools = crate::runner::Tools::release();
+            if tools.dora().exists() && tools.has_boots() {
+                let lp = crate::c10::Labels { tools };
+                ctx.run_regressions(&lp);
+                let n = ctx.n(24, 400);
+                ctx.run_search(&lp, n, 30, 0);
+                ctx.require_class("asm-labels/has-shortened-symbol");
+            } else {
+                ctx.extra.insert("asm_labels".into(), json!("skipped: tools not built"));
+            }
             ctx.require_class("mangle/pair-differs-only-past-truncation-point");
             ctx.require_class("mangle/pair-differs-only-in-escaped-chars");
             ctx.finish()
